@@ -15,6 +15,7 @@ import (
 
 	"verif/internal/gen"
 	"verif/internal/harness"
+	"verif/internal/tu"
 )
 
 func TestMain(m *testing.M) { harness.Main(m, "C10") }
@@ -42,6 +43,7 @@ func mark(g *gen.GraphBP, side string) {
 var markRe = regexp.MustCompile(`^([LR]\d+)m$`)
 
 type outPerson struct {
+	node    *gedcom.IndividualNode
 	pointer string
 	marks   []string // "L3", "R1"
 	facts   map[string]bool
@@ -54,7 +56,7 @@ func describe(doc *gedcom.Document) []outPerson {
 		if !ok {
 			continue
 		}
-		p := outPerson{pointer: ind.Pointer(), facts: map[string]bool{}}
+		p := outPerson{node: ind, pointer: ind.Pointer(), facts: map[string]bool{}}
 		for _, c := range ind.Nodes() {
 			switch c.Tag().Tag() {
 			case "_MARK":
@@ -101,6 +103,22 @@ func inputRefs(g *gen.GraphBP, side string) (map[string]map[string]bool, bool) {
 		}
 	}
 	return out, closed
+}
+
+// directionalDates: the subtree holds a DATE with a Before or After constraint (the class
+// of C09-F1: Date.Equals is documented not to be an equivalence there).
+func directionalDates(n gedcom.Node) bool {
+	found := false
+	tu.Walk(n, func(x gedcom.Node, _ int) {
+		if d, ok := x.(*gedcom.DateNode); ok && d.IsValid() {
+			for _, c := range []gedcom.DateConstraint{d.DateRange().StartDate().Constraint, d.DateRange().EndDate().Constraint} {
+				if c == gedcom.DateConstraintBefore || c == gedcom.DateConstraintAfter {
+					found = true
+				}
+			}
+		}
+	})
+	return found
 }
 
 func unptr(v string) string { return strings.Trim(v, "@") }
@@ -191,6 +209,34 @@ func check(c mergeCase) (fl *harness.Failure, oc outcome) {
 				if !p.facts[m+suffix] {
 					return harness.Failf("merged-individual-lost-fact", "output individual %s carries marker %s but not its fact %s%s\n%s", p.pointer, m, m, suffix, text), oc
 				}
+			}
+		}
+	}
+	// ... and every other line of both originals: each node of an original individual is
+	// represented in the individual that carries its marker by an equal node under an
+	// equal parent chain ("equal" as in C09: Equals either way or the same line)
+	originals := map[string]*gedcom.IndividualNode{}
+	for _, d := range []*gedcom.Document{ld, rd} {
+		for _, ind := range d.Individuals() {
+			for _, n := range ind.Nodes() {
+				if m := markRe.FindStringSubmatch(n.Value()); n.Tag().Tag() == "_MARK" && m != nil {
+					originals[m[1]] = ind
+				}
+			}
+		}
+	}
+	for _, p := range people {
+		for _, m := range p.marks {
+			orig := originals[m]
+			if orig == nil {
+				continue
+			}
+			if ok, miss := tu.CoversKids(p.node, orig); !ok {
+				sig := "merged-individual-lost-node"
+				if directionalDates(orig) || directionalDates(p.node) {
+					sig += ":directional-dates"
+				}
+				return harness.Failf(sig, "output individual %s carries marker %s but nothing equal to %s of the original (under an equal parent)\noriginal:\n%s\nmerged document:\n%s", p.pointer, m, tu.Describe(miss), orig.GEDCOMString(0), text), oc
 			}
 		}
 	}
@@ -444,7 +490,7 @@ func genCase(rt *rapid.T) mergeCase {
 
 func TestCheckMerge(t *testing.T) {
 	s := harness.NewSub("document-merge-accounting-and-references",
-		"pairs of referentially closed family graphs (<= 7 people, <= 3 families): a base and an independently edited copy (people dropped/added/renamed, facts changed) with the same pointers or completely renumbered, disjoint documents, documents whose pointers clash, an empty side; every person carries a unique marker and two unique fact leaves; thresholds default/0.95/0.3; library call and the query function MergeDocumentsAndIndividuals. Oracle: output decodes, every marker exactly once, no two people of one side merged, merged people hold all facts of both, inputs unchanged; every HUSB/WIFE/CHIL of the output resolves to an individual carrying the marker of a person the inputs refer to in that family and role, every input reference is still there, FAMS/FAMC resolve to families; non-trivial = a merged pair and an unmatched person on each side")
+		"pairs of referentially closed family graphs (<= 7 people, <= 3 families): a base and an independently edited copy (people dropped/added/renamed, facts changed) with the same pointers or completely renumbered, disjoint documents, documents whose pointers clash, an empty side; every person carries a unique marker and two unique fact leaves; thresholds default/0.95/0.3; library call and the query function MergeDocumentsAndIndividuals. Oracle: output decodes, every marker exactly once, no two people of one side merged, merged people hold all unique facts and every other line of both originals (an equal node under an equal parent chain), inputs unchanged; every HUSB/WIFE/CHIL of the output resolves to an individual carrying the marker of a person the inputs refer to in that family and role, every input reference is still there, FAMS/FAMC resolve to families; non-trivial = a merged pair and an unmatched person on each side")
 	s.Rapid(t, harness.Share(harness.Pick(30000, 600000)), 100, func(rt *rapid.T) {
 		c := genCase(rt)
 		fl, oc := check(c)
